@@ -13,7 +13,8 @@ from . import c06 as C6
 PROP = "C08"
 RULE = ("all triples (R, P, TS or none) over a common atom set: every pair of bond sets on n<=3 atoms (thorough n<=4 with <=4 bonds) "
         "x TS in {absent, every superset of R u P}; stereo: on one atom centre and one bond independently one of {none, d1, d2 (other "
-        "isomer), d3 (other class)} in R, P and TS - all 4^3 combinations each, which covers every branch of from_graphs; both "
+        "isomer), d3 (other class)} in R, P and TS - all 4^3 combinations each, which covers every branch of from_graphs, also with "
+        "the descriptor-carrying bond itself formed or broken; both "
         "reaction classes.  Oracle: reactant()/product() equal R/P (atoms, elements, bonds, descriptors up to symmetry); formed / "
         "broken / fleeting bonds are P\\R, R\\P, TS\\(RuP); reverse_reaction() swaps reactant and product incl. stereo, keeps fleeting "
         "bonds and fleeting stereo, reversing twice is identical; originals untouched.  distinct = triples")
@@ -72,6 +73,12 @@ def stereo_items(tier):
             for var in (0, 1, 2):
                 T.append(("atom", r, p, ts, var))
                 T.append(("bond", r, p, ts, var))
+            # the bond that carries the descriptor is itself formed (var 3: no such bond, hence no descriptor, in the reactant)
+            # or broken (var 4: none in the product)
+            if r == 0:
+                T.append(("bond", r, p, ts, 3))
+            if p == 0:
+                T.append(("bond", r, p, ts, 4))
     return T
 
 
@@ -209,6 +216,10 @@ def run_item(item):
             extra = [(2, 4)]
             rb = B_BONDS + (extra if var == 2 else [])
             pb = B_BONDS + (extra if var == 1 else [])
+            if var == 3:
+                rb = [b for b in B_BONDS if b != (0, 1)]
+            if var == 4:
+                pb = [b for b in B_BONDS if b != (0, 1)]
             R = _mk(SMG, B_ATOMS, rb, bst=B_MENU[r])
             P = _mk(SMG, B_ATOMS, pb, bst=B_MENU[p])
             TS = None if ts == "absent" else _mk(SMG, B_ATOMS, B_BONDS + extra, bst=B_MENU[ts])
